@@ -20,17 +20,18 @@
 (***************************************************************************)
 EXTENDS Naturals, Sequences, FiniteSets, TLC, SequencesExt
 
-CONSTANTS MissingOrder, Reorder, PadFromFront
+CONSTANTS MissingOrder, Reorder, PadFromFront, DocExtras
 
 Names == {"a", "b", "c"}
-Extra == "zz"                         \* documented, but not a parameter
+\* DocExtras: names that are documented but are not parameters (keys forwarded through **kwargs, stale entries)
 Perms(S) == {s \in [1..Cardinality(S) -> S] : \A i, j \in 1..Cardinality(S) : i # j => s[i] # s[j]}
 Sigs == {[i \in 1..3 |-> [n |-> p[i], def |-> d[i]]] : p \in Perms(Names), d \in [1..3 -> {"absent", "d"}]}
 ValidSig(s) == \A i \in 1..2 : s[i].def = "d" => s[i + 1].def = "d"       \* Python: defaults only on a suffix
-\* C07's quantifier: the docstring documents all, some or none of the *parameters*, in or out of signature order.
-\* (A documented name that is not a parameter is outside it; Place below keeps such a name next to its docstring
-\* neighbour, which TLC shows is not enough for SourceOrder when the docstring is also out of order.)
-Docs == UNION {Perms(S) : S \in SUBSET Names}
+\* C07's quantifier: the docstring documents all, some or none of the *parameters*, in or out of signature order
+\* (DocExtras = {}).  A documented name that is not a parameter is outside it; Place below keeps such a name next to its
+\* docstring neighbour, which TLC shows is not enough for SourceOrder when the docstring is also out of order.  C12
+\* (determinism) quantifies over every definition, so Merge_extras.cfg adds two such names and drops SourceOrder.
+Docs == UNION {Perms(S) : S \in SUBSET (Names \cup DocExtras)}
 
 VARIABLES sig, doc, result, todo, pc, defaults
 vars == <<sig, doc, result, todo, pc, defaults>>
@@ -70,10 +71,17 @@ Place(sigOrder, extras) ==
                            (\E j \in (i + 1)..Len(doc) : doc[j] = h /\ \A m \in (i + 1)..(j - 1) : ~InSig(doc[m])))
            rest == SelectSeq(extras, LAMBDA x : \A k \in 1..Len(before) : before[k] # x)
        IN before \o <<CHOOSE r \in Range(result) : r.n = h>> \o Place(Tail(sigOrder), rest)
+\* the documented non-parameters that no parameter follows in the docstring go last: `Place` leaves them in docstring order;
+\* taking them out of a set instead (MissingOrder = "set") puts them in any order
+Leftover(extras) == SelectSeq(extras, LAMBDA x : \E i \in 1..Len(doc) : doc[i] = x.n /\ \A j \in (i + 1)..Len(doc) : ~InSig(doc[j]))
 Order == /\ pc = "append" /\ todo = {}
-         /\ result' = IF Reorder
-                        THEN Place([i \in 1..3 |-> sig[i].n], SelectSeq(result, LAMBDA r : ~InSig(r.n)))
-                        ELSE result
+         /\ IF Reorder
+              THEN LET extras == SelectSeq(result, LAMBDA r : ~InSig(r.n))
+                       placed == Place([i \in 1..3 |-> sig[i].n], extras)
+                       left   == Leftover(extras)
+                       head   == SubSeq(placed, 1, Len(placed) - Len(left))
+                   IN \E t \in (IF MissingOrder = "signature" THEN {left} ELSE Perms(Range(left))) : result' = head \o t
+              ELSE result' = result
          /\ pc' = "done" /\ UNCHANGED <<sig, doc, todo, defaults>>
 Next == Pad \/ Take \/ Append1 \/ Order
 Spec == Init /\ [][Next]_vars
@@ -98,5 +106,9 @@ AgreeBefore(x, y) ==
 SourceOrder == Done => \A x, y \in Range(ResNames) : (x # y /\ AgreeBefore(x, y)) => Pos(ResNames, x) < Pos(ResNames, y)
 \* C12: the result does not depend on the schedule (checked over all schedules of one input by TLC exploring them all):
 \* in the done state the order of signature-only names must be the signature's
-Deterministic == Done => \A x, y \in SigNames \ Range(doc) : Idx(x) < Idx(y) => Pos(ResNames, x) < Pos(ResNames, y)
+\* and the order of the documented non-parameters that go last must be the docstring's
+TrailingExtra(n) == n \in Range(doc) \ SigNames /\ \A j \in (Pos(doc, n) + 1)..Len(doc) : ~InSig(doc[j])
+Deterministic == Done => /\ \A x, y \in SigNames \ Range(doc) : Idx(x) < Idx(y) => Pos(ResNames, x) < Pos(ResNames, y)
+                         /\ \A x, y \in Range(doc) : (TrailingExtra(x) /\ TrailingExtra(y) /\ Pos(doc, x) < Pos(doc, y))
+                                                         => Pos(ResNames, x) < Pos(ResNames, y)
 =============================================================================
